@@ -10,6 +10,7 @@
 //! engine (discrete-event packet path, real std); with it, the `poolsim` engine (real worker pools
 //! under shuttle's scheduler).
 
+mod alloc;
 mod conn;
 mod gen;
 mod pkt;
@@ -21,6 +22,9 @@ mod tap;
 
 use runner::{Opts, Prop, ReplayFile, Tier};
 
+#[global_allocator]
+static GLOBAL: alloc::Counting = alloc::Counting;
+
 macro_rules! for_props {
     ($m:ident) => {
         #[cfg(not(huginn_net_verif_sched))]
@@ -29,6 +33,7 @@ macro_rules! for_props {
             $m!(props::c07::C07);
             $m!(props::c08::C08);
             $m!(props::c09::C09);
+            $m!(props::c11::C11);
             $m!(props::c15::C15);
             $m!(props::c17::C17);
             $m!(props::c19::C19);
